@@ -14,4 +14,4 @@ for sid in sorted(d for d in os.listdir('seeded') if os.path.exists('seeded/%s/p
     det = [p for p, v in sorted(row.items()) if v['exit'] == 1]
     own = 'C' + sid[1:3]
     det = ([own] if own in det else []) + [p for p in det if p != own]
-    print('| %s | `%s` | %s | %s |' % (sid, ', '.join(files), first, ', '.join(det) if det else '(matrix pending)'))
+    print('| %s | `%s` | %s | %s |' % (sid, ', '.join(files), first, ', '.join(det) if det else ('not reported (see the text on the round)' if row else '(matrix pending)')))
